@@ -221,7 +221,7 @@ static std::string mtext(const sc::Mesh& m) { return sc::mesh_to_text(m); }
 static void explore(Result& R) {
     const bool th = R.args.thorough(); long from_bfs = 0; auto fam = mesh_family(th, from_bfs);
     auto rots = sc::cube_rotations(); std::vector<std::array<double, 9>> RR = {sc::ID3, rots[9], sc::rot_z_345(), sc::matmul(sc::rot_x_51213(), sc::rot_z_345())}; if (th) for (int i : {3, 14, 17, 22}) RR.push_back(rots[i]);
-    std::vector<std::array<double, 3>> TT = {{0, 0, 0}, {0.25, 0.25, -0.25}, {8, -8, 8}}; std::vector<double> SS = {1.0, 1e-5};
+    std::vector<std::array<double, 3>> TT = {{0, 0, 0}, {0.25, 0.25, -0.25}, {8, -8, 8}}; std::vector<double> SS = {1.0, 1e-5, 1e-9};   /* the last one: triangles of ~1e-19 in area, far below every absolute tolerance a double-precision code could be tempted to use */
     long evals = 0, cases = 0; double wn[3] = {0, 0, 0}; std::map<int, long> nonzero_per_term;
     for (size_t mi = 0; mi < fam.size(); mi++) { if (R.out_of_time(0.9)) { R.cap("deadline"); break; }
         double size = 0; for (double v : fam[mi].pos) size = std::max(size, std::fabs(v)); size *= 2;
